@@ -215,6 +215,16 @@ func c19R5(c *Ctx) {
 			c.R.Ob(rule, "CheckAndAdd:addWaiting⊣nonce-not-stale", ok, c.Pos(ci), fname(f), guardsText(f, ci))
 		}
 	}
+	if f := c.Anchor(rule, tpT+".updateToState"); f != nil {
+		cs := f.CallsTo(cfgx.Named(tpT + ".promoteExecutables"))
+		ok := len(cs) > 0
+		for _, ci := range cs {
+			if !cfgx.IsNilConst(ci.Common().Args[1]) {
+				ok = false
+			}
+		}
+		c.R.Ob(rule, "updateToState:promote-all-accounts", ok, c.P.Pos(f.F.Pos()), fname(f), "after a commit every account with waiting transactions is re-examined (promoteExecutables(nil) = all accounts): a block proposed elsewhere advances nonces of accounts that had nothing pending here")
+	}
 	if f := c.Anchor(rule, tpT+".promoteExecutables"); f != nil {
 		n := "chain/app/evm.(*ethTxPool).safeGetNonce(a0,"
 		for _, name := range []string{"Forward", "ReadyN"} {
